@@ -53,6 +53,11 @@ def rule_put(ctx: Ctx, rule="C03.put"):
         puts = [e for e in evs if e.kind == "call" and k.calls_method(e, "put") and any(t.cls is k.base or (t.cls and k.base in ctx.p.mro(t.cls)) for t in e.x["callee"].targets)]
         loops = [e for e in evs if e.kind == "call" and k.calls_method(e, "processing_loop")]
         if not loops:
+            if p.kind in ("return", "fall"):
+                rep.violation(rule, fn.loc(), "an event call returns without enqueuing the trigger and entering the processing loop: what happens "
+                              "to the event is decided at send time instead of in queue order", fn.key,
+                              f"path returns {xshow(p.value, evs) if p.value is not None else None} after: " +
+                              "; ".join(f"{xshow(b.term, evs)}={b.x['taken']}" for b in p.of("branch"))[:200])
             continue
         n += 1
         ok = len(puts) == 1 and len(loops) == 1 and puts[0].idx < loops[0].idx
@@ -355,4 +360,12 @@ def rule_depth(ctx: Ctx):
     rep.floor("C03.depth", "callback slot sites on the event path", n_slots, 4)
 
 
-RULES = [rule_put, rule_fifo, rule_elect, rule_rtc, rule_first, rule_nonrtc, rule_guarded_pop, rule_depth]
+def rule_release(ctx: Ctx):
+    """C03.release: a lock left held by any exit (incl. BaseException: CancelledError, KeyboardInterrupt) makes every later
+    outermost call look nested - its event is queued and never run."""
+    from . import c04
+
+    c04.rule_release(ctx, rule="C03.release")
+
+
+RULES = [rule_put, rule_fifo, rule_elect, rule_rtc, rule_first, rule_nonrtc, rule_guarded_pop, rule_depth, rule_release]
